@@ -906,34 +906,20 @@ pub fn run(ctx: &mut Ctx) {
     let dom: Vec<Pol> = [true, false].iter().flat_map(|p| [0, 1, 5, 60, -1].iter().map(move |m| Pol { public: *p, max_age: *m })).collect();
     let arity = ctx.tier.pick(3, 4);
     let mut count = 0u64;
-    for n in 1..=arity {
-        let mut ix = vec![0usize; n];
-        loop {
-            let ps: Vec<Pol> = ix.iter().map(|i| dom[*i]).collect();
+    let mut complete = true;
+    'laws: for n in 1..=arity {
+        for code in 0..dom.len().pow(n as u32) {
+            let ps: Vec<Pol> = (0..n).map(|pos| dom[code / dom.len().pow(pos as u32) % dom.len()]).collect();
             count += 1;
             if ctx.check_case("laws", law_case(&ps), json!({"policies": ps.iter().map(|p| p.show()).collect::<Vec<_>>()})) {
-                return;
-            }
-            let mut p = n;
-            while p > 0 {
-                p -= 1;
-                ix[p] += 1;
-                if ix[p] < dom.len() {
-                    break;
-                }
-                ix[p] = 0;
-                if p == 0 {
-                    p = usize::MAX;
-                    break;
-                }
-            }
-            if p == usize::MAX {
-                break;
+                // first broken law is reported; the document streams still run
+                complete = false;
+                break 'laws;
             }
         }
     }
-    ctx.enumerated("laws", count, true, t0);
-    ctx.exhaustive = Some(true);
+    ctx.enumerated("laws", count, complete, t0);
+    ctx.exhaustive = Some(complete);
 
     // explicit witnesses
     let field = |f: &'static str, sub: Option<(Ty, Vec<Sel>)>| Sel::Field { alias: None, f, seed: None, sub };
@@ -954,9 +940,7 @@ pub fn run(ctx: &mut Ctx) {
     ];
     for (name, d) in &witnesses {
         let c = doc_case(&k, open, d, None, true, false);
-        if ctx.check_case("witness", c, json!({"witness": name})) {
-            return;
-        }
+        ctx.check_case("witness", c, json!({"witness": name}));
     }
 
     let n = ctx.tier.pick(60_000, 1_500_000);
